@@ -138,6 +138,12 @@ def classes(e, acc=None) -> dict:
     return acc
 
 
+def fresh_str(s: str) -> str:
+    """an equal but distinct str object (where CPython allows one: length >= 2): names reach the
+    library from files, formats and joins, not only as interned source literals"""
+    return "".join(list(s)) if isinstance(s, str) else s
+
+
 def hexs(s: str) -> str:
     return s.encode("utf-8").hex() or "-"
 
@@ -340,7 +346,7 @@ def _build_raw(toks, i, objs):
     if head == "C":
         return done(X.Constant(raw_num(toks[i]))), i + 1
     if head == "V":
-        return done(X.Variable(toks[i])), i + 1
+        return done(X.Variable(fresh_str(toks[i]))), i + 1
     if head in ("A", "M"):
         k = int(toks[i]); i += 1
         args = []
